@@ -26,10 +26,14 @@ COMBOS = [  # documented illegal combinations and values (all must be diagnostic
     "void f(int *a +dimension(n)) extra", "void f(int *a", "void f(int *a))", "void f(int *a]", "void f(...)", "void f(int a, ...)",
     "void f(int a) volatile", "unsigned unknown f()", "void f(Zed a)", "void f(std::map<int,int> a)", "int f() +deref(pointer)",
     "void f(void (*cb)(int i +intent(out)))", "void f(void (*cb)(int *i +dimension(n+)))", "void f(void (*cb)(std::vector &v))",
-    "void f(void (*cb)(int *i +dimension(..)))", "void f(int *a +intent)", "void f(int *a, int n +implied)", "void f(int *a +rank())",
+    "void f(int *a +intent)", "void f(int *a, int n +implied)", "void f(int *a +rank())",
     "void f(int *a +rank=1e999)", "void f(int *a, int n +implied(size(3)))", "void f(int *a, int n +implied(size(a+1)))",
     "void f(int *a, int n +implied(size(a) 7))", "{", "void f(int a) {", "} f()", "\"{}\" f()", "MyInt::x f()", "ns f()", "std f()", "void f(std x)",
 ]
+
+
+# accepted declarations that once ended in an internal exception: they must stay free of internal failures (either outcome class)
+WITNESSES = ["void f(void (*cb)(int *i +dimension(..)))"]
 
 
 def lib(decls, extra=""):
@@ -62,6 +66,8 @@ def attr_space():
                 out.append(("var:%s:%s:%s" % (a, f, t), lib("- decl: class Var\n  declarations:\n  - decl: %s\n" % q(d))))
     for c in COMBOS:
         out.append(("combo:" + c, lib("- decl: %s\n" % q(c))))
+    for c in WITNESSES:
+        out.append(("witness:" + c, lib("- decl: %s\n" % q(c))))
     return out
 
 
